@@ -410,6 +410,38 @@ def run(ctx):
     p = ecfg.find_path(ecfg.entry, lambda m: m is ecfg.exit, edge_ok=lambda a, b, k: not k.startswith('x:'), stop=is_recycle)
     ck.expect(p is None, 'C12-D7', ex.qual, '__exit__ -> recycle() on every normal path',
               'a session can exit without returning its connections to the pool', ex.loc(), path=describe_path(p) if p else None)
+    # every session-like __exit__ of the protocol layer: nothing that can fail stands between the entry and the recycle it is
+    # about to make (a listener notified first, raising, would leave the connection checked out for good)
+    TOTAL_BEFORE_RECYCLE = {'abort', 'close', 'debug', 'info', 'warning', 'isinstance'}
+    n_exits = 0
+    for f in repo.funcs.values():
+        if f.name != '__exit__' or not f.module.name.startswith('wpull.protocol.'):
+            continue
+        fcfg = ctx.cfg(f)
+        rnodes = [n for n in fcfg.stmt_nodes() if any(U.attr_name(c) == 'recycle' for c in F.node_calls(n))]
+        if not rnodes:
+            continue
+        n_exits += 1
+        bad = None
+        for n in fcfg.stmt_nodes():
+            if n in rnodes:
+                continue
+            risky = [c for c in F.node_calls(n) if (U.attr_name(c) or (c.func.id if isinstance(c.func, ast.Name) else '')) not in TOTAL_BEFORE_RECYCLE]
+            if not risky:
+                continue
+            pending = fcfg.find_path(n, lambda m: m in rnodes, edge_ok=F.normal) is not None
+            if not pending:
+                continue
+            for d, k in n.succ:
+                if k.startswith('x:') and k not in ('x:attr', 'x:subscript'):
+                    if d is fcfg.exit or d in getattr(fcfg, 'exits', ()) or fcfg.find_path(d, lambda m: m is fcfg.exit, edge_ok=lambda a, b, kk: True, stop=lambda m: m in rnodes) is not None \
+                            or not d.succ:
+                        bad = (n, risky[0])
+        ck.expect(bad is None, 'C12-D7', f.qual, 'nothing that can raise precedes recycle()',
+                  '`%s` runs before the connections are handed back: if it raises (a listener of the session event failing on I/O) '
+                  'recycle() is skipped and the connection stays checked out' % (norm_text(bad[1])[:70] if bad else ''), f.loc(bad[0].stmt) if bad else f.loc())
+    if n_exits < 2:
+        raise AnalysisError('expected the __exit__ of BaseSession and of WebSession to recycle their connections')
     rc = repo.func(bs.qual + '.recycle')
     okr = False
     for lp in walk_no_nested(rc.node):
